@@ -19,6 +19,7 @@ The reference model (class Ref) never imports pymtl3: signals are bit cells, con
 blocks are interpreted on Python ints with explicit width arithmetic (DESIGN.md Appendix B).
 """
 import json
+import re
 import linecache
 import sys
 import types
@@ -215,6 +216,8 @@ def ref_text(r):
     if st[0] == "f": s += "." + st[1]
     elif st[0] == "i": s += f"[{st[1]}]"
     elif st[0] == "sv": s += f"[{st[1]}*{st[2]}:{st[1]}*{st[2]}+{st[2]}]"        # loop-variable slice [i*w : i*w+w]
+    elif len(st) > 4 and isinstance(st[4], list):                                            # st[4] = ["ex", lo_text, hi_text]: bounds written as constant
+      s += f"[{st[4][1]}:{st[4][2]}]"                                                        #   expressions of closure variables ( s.x[NB9-2:NB9-1] )
     elif len(st) > 4: s += "[:%d]" % st[2] if st[4] == "lo" else "[%d:]" % st[1]            # st[4]: the bound that the text leaves out
     else: s += f"[{st[1]}:{st[2]}]" if len(st) < 4 else f"[{st[1]}:{st[2]}:{st[3]}]"       # st[3]: a slice step (only in defective designs)
   return s
@@ -439,6 +442,8 @@ def emit(design, connect_order=None, connect_style=None, block_order=None):
   for cn in design["order"]:
     c = design["classes"][cn]
     L += [f"class {cn}({design.get('bases', {}).get(cn, 'Component')}):", "  def construct(s):"]
+    for nb in sorted(set(re.findall(r"NB(\d+)", json.dumps(c["blocks"]))), key=int):
+      L.append(f"    NB{nb} = {nb}")               # closure constants used in slice bounds ( s.x[NB9-5:NB9-1] )
     for sg in c["signals"]:
       if sg["list"]:
         dims = [sg["list"]] if isinstance(sg["list"], int) else list(sg["list"])
@@ -1198,6 +1203,39 @@ class Gen:
           if not isinstance(W, int): continue
           if st[1] == 0 and st[2] < W: r["steps"] = r["steps"][:-1] + [st + [None, "lo"]]
           elif st[2] == W and st[1] > 0: r["steps"] = r["steps"][:-1] + [st + [None, "hi"]]
+    if k.get("p_expr_bounds_blk"):
+      # bounds of slices inside update blocks written as constant expressions of a closure variable:  s.x[NB9-5:NB9-1]
+      def walk2(o):
+        if isinstance(o, dict):
+          if o.get("steps") and o["steps"][-1][0] == "s" and len(o["steps"][-1]) == 3 and not o.get("sym") \
+             and not (len(o["steps"]) >= 2 and o["steps"][-2][0] == "s") and rng.random() < k["p_expr_bounds_blk"]:
+            st = o["steps"][-1]
+            nb = st[2] + rng.randrange(0, 4)
+            lo = f"NB{nb}-{nb - st[1]}" if rng.random() < 0.5 else str(st[1])
+            hi = f"NB{nb}-{nb - st[2]}" if nb > st[2] else f"NB{nb}+0"
+            o["steps"] = o["steps"][:-1] + [st + [None, ["ex", lo, hi]]]
+            self.design.setdefault("stats", {}).setdefault("expression_bounds_in_blocks", 0); self.design["stats"]["expression_bounds_in_blocks"] += 1
+          for v in o.values(): walk2(v)
+        elif isinstance(o, list):
+          for v in o: walk2(v)
+      for b in cls["blocks"]:
+        if not b.get("lambda"): walk2(b["stmts"])
+    if k.get("p_omit_bounds_blk"):
+      # ... and inside update blocks, for targets and operands alike:  s.x[:8] @= s.y[4:] + 1
+      def walk(o):
+        if isinstance(o, dict):
+          if o.get("steps") and o["steps"][-1][0] == "s" and len(o["steps"][-1]) == 3 and not o.get("sym") \
+             and not (len(o["steps"]) >= 2 and o["steps"][-2][0] == "s") and rng.random() < k["p_omit_bounds_blk"]:
+            st = o["steps"][-1]
+            W = ref_type(d, cls, o)
+            if isinstance(W, int):
+              if st[1] == 0 and st[2] < W: o["steps"] = o["steps"][:-1] + [st + [None, "lo"]]; self.design.setdefault("stats", {}).setdefault("omitted_bounds_in_blocks", 0); self.design["stats"]["omitted_bounds_in_blocks"] += 1
+              elif st[2] == W and st[1] > 0: o["steps"] = o["steps"][:-1] + [st + [None, "hi"]]; self.design.setdefault("stats", {}).setdefault("omitted_bounds_in_blocks", 0); self.design["stats"]["omitted_bounds_in_blocks"] += 1
+          for v in o.values(): walk(v)
+        elif isinstance(o, list):
+          for v in o: walk(v)
+      for b in cls["blocks"]:
+        if not b.get("lambda"): walk(b["stmts"])
     if k.get("p_vfunc") and rng.random() < k["p_vfunc"]:
       self.add_vfuncs(cls)
     if k.get("p_func"):
